@@ -29,4 +29,57 @@ theorem summary_history_roundtrip (ops : List SumOp) (hok : ∀ op ∈ ops, op.O
       PropSet.read bytes = .ok (ops.foldl (fun p op => op.apply p) newSummary) :=
   propset_roundtrip _ (MsiProofs.SummaryInv.sumInv_wf _ (history_sumInv ops newSummary MsiProofs.ClosedLifecycle.newSummary_inv hok)).1
 
+/-! ### with the template setters (`set_arch`, `set_languages`) -/
+
+/-- the template setters keep the summary information well-formed -/
+def sumInv_templ := @MsiProofs.SummaryInv.sumInv_templ
+
+/-- any setter or clearer of the summary API -/
+inductive AnyOp
+  | basic (op : SumOp)
+  | templ (op : TemplOp)
+
+def AnyOp.apply : AnyOp → PropSet → PropSet
+  | .basic op, p => op.apply p
+  | .templ op, p => op.apply p
+
+/-- admitted in state `p`: the arguments the API admits; for the template setters, a resulting
+template text below 128 MiB -/
+def AnyOp.OkIn (p : PropSet) : AnyOp → Prop
+  | .basic op => op.Ok
+  | .templ op => op.OkIn p
+
+def runOps (p : PropSet) (ops : List AnyOp) : PropSet := ops.foldl (fun p op => op.apply p) p
+
+def AdmOps : PropSet → List AnyOp → Prop
+  | _, [] => True
+  | p, op :: rest => op.OkIn p ∧ AdmOps (op.apply p) rest
+
+theorem history_sumInv_all (ops : List AnyOp) : ∀ (p : PropSet), SumInv p → AdmOps p ops → SumInv (runOps p ops) := by
+  induction ops with
+  | nil => intro p h _; exact h
+  | cons op rest ih =>
+    intro p h hok
+    refine ih _ ?_ hok.2
+    cases op with
+    | basic o => exact MsiProofs.SummaryInv.sumInv_apply p h o hok.1
+    | templ o => exact MsiProofs.SummaryInv.sumInv_templ p h o hok.1
+
+/-- **summary information survives saving over every history of ALL the setters and clearers**
+(the five text properties, UUID, word count, creation time, architecture, languages) -/
+theorem summary_history_roundtrip_all (ops : List AnyOp) (hok : AdmOps newSummary ops) :
+    ∃ bytes, (runOps newSummary ops).write = .ok bytes ∧ PropSet.read bytes = .ok (runOps newSummary ops) :=
+  propset_roundtrip _ (MsiProofs.SummaryInv.sumInv_wf _
+    (history_sumInv_all ops newSummary MsiProofs.ClosedLifecycle.newSummary_inv hok)).1
+
+/-- non-vacuity: architecture, languages, a title and a clear are admitted after `new` -/
+example : AdmOps newSummary [.templ (.arch "x64".toList), .templ (.languages [1033, 1041]),
+    .basic (.str Gen.propTitle "T".toList), .templ (.arch "Intel".toList), .basic (.clear Gen.propTitle)] := by
+  refine ⟨?_, ?_, ?_, ?_, ?_, trivial⟩
+  · show (MsiProofs.Utf8Lifecycle.utf8Bytes _).length < bound; decide +kernel
+  · show (MsiProofs.Utf8Lifecycle.utf8Bytes _).length < bound; decide +kernel
+  · show _ ∈ _ ∧ (MsiProofs.Utf8Lifecycle.utf8Bytes _).length < bound; decide +kernel
+  · show (MsiProofs.Utf8Lifecycle.utf8Bytes _).length < bound; decide +kernel
+  · show _ ∈ _; decide +kernel
+
 end MsiProofs.C10
